@@ -1184,6 +1184,48 @@ impl Router {
     }
 }
 
+/// Verification hooks (H2): drive the router single-threadedly, one event / one `consume`
+/// at a time, without the channel and the thread. Add-only.
+#[cfg(rumqtt_verif)]
+impl Router {
+    pub fn verif_events(&mut self, id: ConnectionId, data: Event) {
+        self.events(id, data)
+    }
+
+    /// one `consume()`; `false` when the ready queue was empty (the real loop would block)
+    pub fn verif_consume(&mut self) -> bool {
+        self.consume().is_some()
+    }
+
+    pub fn verif_link(&self) -> Sender<(ConnectionId, Event)> {
+        self.link()
+    }
+
+    /// read-only summary used to attribute failures (never compared with the model)
+    pub fn verif_snapshot(&self) -> String {
+        let trackers: Vec<String> = self
+            .scheduler
+            .trackers
+            .iter()
+            .map(|(id, t)| {
+                let reqs: Vec<String> = t
+                    .data_requests
+                    .iter()
+                    .map(|r| format!("{}@{:?}", r.filter, r.cursor))
+                    .collect();
+                format!("{id}:{:?}:[{}]", t.status, reqs.join(","))
+            })
+            .collect();
+        format!(
+            "ready={:?} trackers={{{}}} notifications={} conns={}",
+            self.scheduler.readyqueue,
+            trackers.join(" "),
+            self.notifications.len(),
+            self.connections.len()
+        )
+    }
+}
+
 fn append_to_commitlog(
     id: ConnectionId,
     mut publish: Publish,
